@@ -15,6 +15,7 @@ import difflib
 import logging
 import os
 import typing
+import uuid
 
 import pydantic.typing
 import re
@@ -638,10 +639,29 @@ class FlowIRExperimentConfiguration:
 
         if create_instance_files and (exists_manifest is False or update_instance_files is True):
             try:
-                with open(manifest_file, 'w') as f:
-                    experiment.model.frontends.flowir.yaml_dump(self.manifestData, f)
+                self._replace_file_atomically(
+                    manifest_file, lambda f: experiment.model.frontends.flowir.yaml_dump(self.manifestData, f))
             except Exception as e:
                 out_errors.append(e)
+
+    @classmethod
+    def _replace_file_atomically(cls, path: str, write_contents: typing.Callable[[typing.TextIO], Any]):
+        """Generates the contents of @path in a temporary file (same directory) and then renames it to @path.
+
+        A failure (or crash) while computing/writing the contents leaves the previous version of @path
+        intact instead of an empty/truncated file.
+        """
+        tempname = os.path.join(os.path.dirname(path), '.%s.%s' % (os.path.basename(path), uuid.uuid4()))
+        try:
+            with open(tempname, 'w') as f:
+                write_contents(f)
+            os.replace(tempname, path)
+        except Exception:
+            try:
+                os.remove(tempname)
+            except OSError:
+                pass
+            raise
 
     @property
     def manifestData(self) -> Dict[str, str]:
@@ -684,7 +704,8 @@ class FlowIRExperimentConfiguration:
         This is version of FlowIR without any component replication
         """
         instance_file = os.path.join(self._conf_dir, 'flowir_instance.yaml')
-        with open(instance_file, 'w') as f:
+
+        def write_contents(f):
             primitive = self._unreplicated.instance(ignore_errors=True, inject_missing_fields=False,
                                                     fill_in_all=False, is_primitive=True)
             # primitive = experiment.model.frontends.flowir.FlowIR.compress_flowir(primitive)
@@ -692,6 +713,9 @@ class FlowIRExperimentConfiguration:
             experiment.model.frontends.flowir.yaml_dump(
                 pretty_primitive, f, sort_keys=False, default_flow_style=False
             )
+
+        # VV: this file is re-written while the experiment runs (e.g. after each DoWhile iteration)
+        self._replace_file_atomically(instance_file, write_contents)
 
     @property
     def configurationDirectory(self):
